@@ -20,6 +20,27 @@ type Named struct {
 	Regex bool   `json:"regex,omitempty"`
 	// KeysOptional: the type is created with KeysAreOptionalByDefault
 	KeysOptional bool `json:"keys_optional,omitempty"`
+	// Inner: types added to this type object itself (and not to the schema it is added to, which
+	// gets to know them only through this type)
+	Inner []Named `json:"inner_types,omitempty"`
+}
+
+// newType creates the object of a named type, with its inner types added to it.
+func newType(t Named, fileName func(string) string) jschema.Schema {
+	if t.Regex {
+		return regex.New(fileName(t.Name), t.Text)
+	}
+	var o *js.Schema
+	if t.KeysOptional {
+		o = js.New(fileName(t.Name), t.Text, js.KeysAreOptionalByDefault())
+	} else {
+		o = js.New(fileName(t.Name), t.Text)
+	}
+	for _, in := range t.Inner {
+		in := in
+		Safe(func() error { return o.AddType(in.Name, newType(in, fileName)) })
+	}
+	return o
 }
 
 // Spec is everything that defines a schema object.
@@ -28,6 +49,9 @@ type Spec struct {
 	Types        []Named `json:"types,omitempty"`
 	Enums        []Named `json:"enums,omitempty"`
 	KeysOptional bool    `json:"keys_optional,omitempty"`
+	// TypesKnowTypes: every added type object gets all the other types added to itself first (the way
+	// an API description wires its types: each of them is a schema of its own that is checked, too)
+	TypesKnowTypes bool `json:"types_know_types,omitempty"`
 	// SelfName: the root schema object is also added to itself as a named type (s.AddType(name, s)),
 	// the way JSight API registers the type that is being checked.
 	SelfName string `json:"self_name,omitempty"`
@@ -142,17 +166,57 @@ func BuildSharing(sp Spec, shared map[string]jschema.Schema) (*js.Schema, Res, m
 			first = r
 		}
 	}
+	if sp.TypesKnowTypes {
+		// create every type object first, wire them to each other, then add them to the root
+		objs := map[string]jschema.Schema{}
+		for _, t := range sp.Types {
+			if _, ok := shared[t.Name]; ok {
+				continue
+			}
+			if t.Regex {
+				objs[t.Name] = regex.New(fileName(t.Name), t.Text)
+			} else if t.KeysOptional {
+				objs[t.Name] = js.New(fileName(t.Name), t.Text, js.KeysAreOptionalByDefault())
+			} else {
+				objs[t.Name] = js.New(fileName(t.Name), t.Text)
+			}
+		}
+		for _, t := range sp.Types {
+			host, ok := objs[t.Name].(*js.Schema)
+			if !ok {
+				continue
+			}
+			for _, u := range sp.Types {
+				if u.Name == t.Name {
+					continue
+				}
+				other := objs[u.Name]
+				if other == nil {
+					other = shared[u.Name]
+				}
+				if other != nil {
+					Safe(func() error { return host.AddType(u.Name, other) })
+				}
+			}
+		}
+		if shared == nil {
+			shared = map[string]jschema.Schema{}
+		} else {
+			cp := map[string]jschema.Schema{}
+			for k, v := range shared {
+				cp[k] = v
+			}
+			shared = cp
+		}
+		for k, v := range objs {
+			shared[k] = v
+		}
+	}
 	for _, t := range sp.Types {
 		t := t
 		obj, ok := shared[t.Name]
 		if !ok {
-			if t.Regex {
-				obj = regex.New(fileName(t.Name), t.Text)
-			} else if t.KeysOptional {
-				obj = js.New(fileName(t.Name), t.Text, js.KeysAreOptionalByDefault())
-			} else {
-				obj = js.New(fileName(t.Name), t.Text)
-			}
+			obj = newType(t, fileName)
 		}
 		types[t.Name] = obj
 		r := Safe(func() error { return s.AddType(t.Name, obj) })
